@@ -7,10 +7,19 @@ cd "$WT" || exit 2
 git checkout -q -- . && git clean -fdq -e target
 git apply "$S/patch.diff" || { echo "$ID: patch does not apply"; exit 2; }
 SUITE=$(cargo test --workspace --no-fail-fast --offline 2>&1 | grep -E "^test result" | awk '{p+=$4; f+=$6} END {print p" passed "f" failed"}')
-cp "$S/demo.rs" strum_tests/tests/zz_demo.rs
-WITH=$(cargo test -p strum_tests --test zz_demo --offline 2>&1 | grep -E "^test result|error(\[|:)" | head -3 | tr '\n' ' ')
+MODE=${DEMO_MODE:-test}
+rundemo() {
+  case "$MODE" in
+    test) cargo test -p strum_tests --test zz_demo --offline 2>&1 | grep -E "^test result|error(\\[|:)" | head -3 | tr '\n' ' ' ;;
+    phf) cargo test -p strum_tests --features test_phf --test zz_demo --offline 2>&1 | grep -E "^test result|error(\\[|:)" | head -3 | tr '\n' ' ' ;;
+    crate) (cd "$S/demo" && sed -i "s#/tmp/seed/wt-[A-Za-z0-9]*#$WT#g" Cargo.toml && if cargo check --offline >/tmp/demo.$$.log 2>&1; then echo "test result: ok. demo crate compiles"; else echo "FAILED: $(grep -E '^error' /tmp/demo.$$.log | head -2 | tr '\n' ' ')"; fi; rm -rf target /tmp/demo.$$.log) ;;
+    script) (cd "$S/demo" && sed -i "s#/tmp/seed/wt-[A-Za-z0-9]*#$WT#g" Cargo.toml && if sh ./demo.sh >/tmp/demo.$$.log 2>&1; then echo "test result: ok. demo.sh exit 0"; else echo "FAILED: demo.sh exit non-zero: $(tail -2 /tmp/demo.$$.log | tr '\n' ' ')"; fi; rm -rf target /tmp/demo.$$.log) ;;
+  esac
+}
+[ -f "$S/demo.rs" ] && cp "$S/demo.rs" strum_tests/tests/zz_demo.rs
+WITH=$(rundemo)
 git checkout -q -- . 
-WITHOUT=$(cargo test -p strum_tests --test zz_demo --offline 2>&1 | grep -E "^test result|error(\[|:)" | head -3 | tr '\n' ' ')
+WITHOUT=$(rundemo)
 rm -f strum_tests/tests/zz_demo.rs
 git checkout -q -- . && git clean -fdq -e target
 echo "$ID: suite-with-change: $SUITE | demo-with: $WITH | demo-without: $WITHOUT"
@@ -18,7 +27,7 @@ case "$SUITE" in *" 0 failed") ;; *) echo "$ID: REJECT suite fails"; exit 1;; es
 case "$WITH" in *"FAILED"*|*error*) ;; *) echo "$ID: REJECT demo does not fail with change"; exit 1;; esac
 case "$WITHOUT" in *"test result: ok"*) ;; *) echo "$ID: REJECT demo does not pass without change"; exit 1;; esac
 D=/verif/seeded/$ID; mkdir -p "$D"
-cp "$S/patch.diff" "$D/patch.diff"; cp "$S/demo.rs" "$D/demo.rs"; [ -f "$S/notes.md" ] && cp "$S/notes.md" "$D/notes.md"
+cp "$S/patch.diff" "$D/patch.diff"; [ -f "$S/demo.rs" ] && cp "$S/demo.rs" "$D/demo.rs"; [ -d "$S/demo" ] && cp -r "$S/demo" "$D/demo" && rm -rf "$D/demo/target"; [ -f "$S/notes.md" ] && cp "$S/notes.md" "$D/notes.md"
 python3 - "$D" "$ID" "$PROP" "$SUITE" "$WITH" "$WITHOUT" <<'PY'
 import json,sys,os
 d,i,p,suite,w,wo=sys.argv[1:7]
